@@ -61,7 +61,7 @@ Cases(dummy) ==
   IF Mode = "rt"
   THEN LET ds == SetToSeq(Descs(Shard))
            mine == 1..Len(ds)
-       IN UNION {{[id |-> <<i, v>>, op |-> "timbuk", mode |-> "rt", variant |-> v, desc |-> ds[i], text |-> Ser(ds[i], v)] : v \in 0..4} : i \in mine}
+       IN UNION {{[id |-> <<i, v>>, op |-> "timbuk", mode |-> "rt", variant |-> v, desc |-> ds[i], text |-> Ser(ds[i], v)] : v \in 0..5} : i \in mine}
   ELSE LET ms == SetToSeq(UNION {Mutants(d) : d \in BaseDescs})
            mine == {i \in 1..Len(ms) : i % NShards = Shard}
        IN {[id |-> <<i>>, op |-> "timbuk", mode |-> "bad", text |-> ms[i]] : i \in mine}
